@@ -254,6 +254,88 @@ pub fn c01(eng: &mut Engine, rng: &mut Rng, thorough: bool, out: &mut Out) -> Ca
                 emit_w3c(eng, out, &mut cases, "c01.w3c", "c01:shared-referent:honest", "", Some(true), &b.pres, &b.ghosts, &b.agg, true, &req0, &o, "safety");
             }
         }
+        // several predicates in one presentation (two attributes, two on one attribute, a second credential): R differs from R0 in
+        // ONE predicate whose attribute / operator / threshold is replaced — in particular by those of another predicate of R0.
+        // Unless the resulting predicate is itself among the ones P proves, P must not verify against R.
+        if round < 2 || thorough {
+            let ha = eng.cast.cred("a_alice");
+            let hc = eng.cast.cred("c_alice");
+            let va = eng.cast.creds[ha].values.clone();
+            let vc = eng.cast.creds[hc].values.clone();
+            let num = |v: &Vec<(String, String)>| -> Vec<(String, i32)> { v.iter().filter_map(|(k, x)| x.parse::<i32>().ok().map(|n| (k.clone(), n))).collect() };
+            let (na, nc) = (num(&va), num(&vc));
+            let pr = |referent: &str, n: &str, t: &'static str, v: i32, c: usize| RefPlan { referent: referent.into(), kind: Kind::Pred(n.into(), t, v), cred: Some(c), revealed: false, restrictions: None, non_revoked: None };
+            let mut refs = vec![
+                RefPlan { referent: "a_name".into(), kind: Kind::Single(va[0].0.clone()), cred: Some(0), revealed: true, restrictions: None, non_revoked: None },
+                pr("p1", &na[0].0, "GE", na[0].1 - 1 - rng.below(9) as i32, 0),
+                pr("p2", &na[1].0, "GE", 1 + rng.below(30) as i32, 0),
+            ];
+            if rng.chance(1, 2) {
+                refs.push(pr("p3", &na[0].0, "LE", na[0].1 + 1 + rng.below(9) as i32, 0));
+            }
+            let two = round % 2 == 1;
+            let mut creds = vec![CredUse { held: ha, state_list: None, ts_only: None }];
+            if two {
+                creds.push(CredUse { held: hc, state_list: None, ts_only: None });
+                refs.push(pr("q1", &nc[0].0, "GE", nc[0].1 - 3, 1));
+                refs.push(pr("q2", &nc[1].0, "LT", nc[1].1 + 2, 1));
+            }
+            let plan = Plan { creds, refs, global_nr: None, nonce: format!("{}", 1000 + rng.below(1_000_000_000)), holder: 0 };
+            let r0 = plan.request_json();
+            let preds0: Vec<(String, Value)> = r0["requested_predicates"].as_object().unwrap().iter().map(|(k, v)| (k.clone(), v.clone())).collect();
+            let triple = |v: &Value| (norm(v["name"].as_str().unwrap_or("")), v["p_type"].as_str().unwrap_or("").to_string(), v["p_value"].as_i64().unwrap_or(0));
+            let proven: Vec<(String, String, i64)> = preds0.iter().map(|(_, v)| triple(v)).collect();
+            let mut variants: Vec<(String, Value)> = vec![];
+            for (ki, vi) in &preds0 {
+                for (kj, vj) in &preds0 {
+                    if ki == kj {
+                        continue;
+                    }
+                    for (what, fields) in [("op+value", vec!["p_type", "p_value"]), ("name", vec!["name"]), ("value", vec!["p_value"]), ("op", vec!["p_type"])] {
+                        let mut r = r0.clone();
+                        for f in &fields {
+                            r["requested_predicates"][ki.as_str()][*f] = vj[*f].clone();
+                        }
+                        variants.push((format!("{what}-of-other-predicate"), r));
+                    }
+                }
+                for (what, f) in [("value+1", 1i64), ("value-1", -1)] {
+                    let mut r = r0.clone();
+                    r["requested_predicates"][ki.as_str()]["p_value"] = json!(vi["p_value"].as_i64().unwrap() + f);
+                    variants.push((what.to_string(), r));
+                }
+                for op in [">=", ">", "<=", "<"] {
+                    let mut r = r0.clone();
+                    r["requested_predicates"][ki.as_str()]["p_type"] = json!(op);
+                    variants.push(("op-other".to_string(), r));
+                }
+            }
+            let bl = eng.build_legacy(&plan).ok();
+            let bw = eng.build_w3c(&plan).ok();
+            for (what, r) in variants {
+                let changed: Vec<(String, String, i64)> = r["requested_predicates"].as_object().unwrap().iter().map(|(_, v)| triple(v)).collect();
+                if changed == proven {
+                    continue; // the replacement wrote the same predicate
+                }
+                // every predicate R asks for is among those P proves: the model decides (referent / credential binding); else reject
+                let exp = if changed.iter().all(|t| proven.contains(t)) { None } else { Some(false) };
+                let Some(req) = req_from(&r) else { continue };
+                let cls = format!("c01:multi-pred:{}:{what}:{}", if two { "2cred" } else { "1cred" }, if exp.is_some() { "unproven" } else { "proven-elsewhere" });
+                if let Some(b) = &bl {
+                    emit_legacy(eng, out, &mut cases, "c01.legacy", &cls, "", exp, &b.pres, &b.ghosts, &b.agg, &req, &o, "safety");
+                }
+                if let Some(b) = &bw {
+                    emit_w3c(eng, out, &mut cases, "c01.w3c", &cls, "", exp, &b.pres, &b.ghosts, &b.agg, true, &req, &o, "safety");
+                }
+            }
+            let req0 = req_from(&r0).unwrap();
+            if let Some(b) = &bl {
+                emit_legacy(eng, out, &mut cases, "c01.legacy", "c01:multi-pred:honest", "", Some(true), &b.pres, &b.ghosts, &b.agg, &req0, &o, "safety");
+            }
+            if let Some(b) = &bw {
+                emit_w3c(eng, out, &mut cases, "c01.w3c", "c01:multi-pred:honest", "", Some(true), &b.pres, &b.ghosts, &b.agg, true, &req0, &o, "safety");
+            }
+        }
         // two credentials: referents re-pointed at the other credential
         for (first, second) in [("a_alice", "c_alice"), ("a_alice", "b_alice"), ("c_alice", "a2_alice")] {
             if round > 1 && !thorough {
@@ -411,6 +493,39 @@ pub fn c02(eng: &mut Engine, rng: &mut Rng, thorough: bool, out: &mut Out) -> Ca
                     }
                 }
             }
+            // intervals on two referents of the one credential: the named timestamp must lie in every local interval. The holder of
+            // r2 (revoked at list 1, ts 20) presents the state of list 0 (ts 10); one referent's interval admits 10, the other's
+            // starts later. Also with the roles exchanged, and with a fresh state of a valid credential inside both intervals.
+            for (pa, pb) in [("revealed", "predicate"), ("predicate", "revealed"), ("group", "predicate"), ("predicate", "group"), ("global", "predicate"), ("revealed", "global")] {
+                for (held, state_list, lists, cls0, ts) in [("r2_alice", Some(0usize), vec![0usize, 1], "revoked-later:stale-state", 10u64), ("r1_alice", Some(1), vec![0, 1, 2], "valid:fresh-state", 20)] {
+                    for (wcls, admits_a, admits_b) in [("first-excludes", false, true), ("second-excludes", true, false), ("both-admit", true, true)] {
+                        let iv = |admits: bool| if admits { json!({"from": ts - 5, "to": ts + 40}) } else { json!({"from": ts + 4, "to": ts + 40}) };
+                        let mut plan = rev_plan(rng, eng, held, state_list, None, pa, iv(admits_a));
+                        match pb {
+                            "global" => plan.global_nr = Some(iv(admits_b)),
+                            "predicate" => { if let Some(r) = plan.refs.iter_mut().find(|r| matches!(r.kind, Kind::Pred(..))) { r.non_revoked = Some(iv(admits_b)); } }
+                            "revealed" => { if let Some(r) = plan.refs.iter_mut().find(|r| matches!(r.kind, Kind::Single(_)) && r.revealed) { r.non_revoked = Some(iv(admits_b)); } }
+                            _ => {
+                                plan.refs[0] = RefPlan { referent: "g_nd".into(), kind: Kind::Group(vec!["name".into(), "dept".into()]), cred: Some(0), revealed: true, restrictions: None, non_revoked: Some(iv(admits_b)) };
+                                plan.refs.retain(|r| r.referent != "u_dept");
+                            }
+                        }
+                        let ri = eng.cast.creds[eng.cast.cred(held)].rev.unwrap().0;
+                        let o = VOpts { lists: Some(lists.iter().map(|l| (ri, *l)).collect()), rev_reg_defs: true, ..Default::default() };
+                        // a local interval takes the place of the request-wide one; two local intervals both apply
+                        let both_local = pa != "global" && pb != "global";
+                        let expect = if admits_a && admits_b { if cls0.starts_with("valid") { Some(true) } else { None } } else if both_local { Some(false) } else { None };
+                        let cls = format!("c02:two-intervals:{cls0}:{pa}+{pb}:{wcls}");
+                        if w3c {
+                            if let Ok(b) = eng.build_w3c(&plan) {
+                                emit_w3c(eng, out, &mut cases, &fam, &cls, "", expect, &b.pres, &b.ghosts, &b.agg, true, &b.req, &o, "safety");
+                            }
+                        } else if let Ok(b) = eng.build_legacy(&plan) {
+                            emit_legacy(eng, out, &mut cases, &fam, &cls, "", expect, &b.pres, &b.ghosts, &b.agg, &b.req, &o, "safety");
+                        }
+                    }
+                }
+            }
         }
     }
     cases
@@ -509,13 +624,43 @@ pub fn c03(eng: &mut Engine, rng: &mut Rng, thorough: bool, out: &mut Out) -> Ca
                 for ci in 0..b.pres.verifiable_credential.len() {
                     let subj = b.pres.verifiable_credential[ci].credential_subject.0.clone();
                     let pv = b.pres.verifiable_credential[ci].get_credential_presentation_proof().unwrap().clone();
-                    let def = eng.cast.w.defs.iter().find(|d| d.cid == pv.cred_def_id).unwrap();
+                    let wpool = eng.cast.w.clone();
+                    let def = wpool.defs.iter().find(|d| d.cid == pv.cred_def_id).unwrap();
                     // forge a value for a schema attribute the subject does not show
                     if let Some(missing) = def.schema.attr_names.0.iter().find(|a| !subj.keys().any(|k| norm(k) == norm(a))) {
                         let mut p = b.pres.clone();
                         p.verifiable_credential[ci].credential_subject.0.insert(missing.clone(), V::String("Forged Value".into()));
                         let shape = if subj.is_empty() { "empty-subject" } else { "partial-subject" };
                         emit_w3c(eng, out, &mut cases, "c03.w3c", &format!("c03:random-shape:forged-entry:{shape}"), "", Some(false), &p, &b.ghosts, &b.agg, true, &b.req, &ov, "safety");
+                    }
+                    // who issued it, under which definition: issuer and verification method of every credential, to an outsider and
+                    // to the issuer / definition of another credential of the same presentation or of the pool
+                    let others: Vec<(String, String)> = wpool.defs.iter().filter(|x| x.cid != pv.cred_def_id).map(|x| (x.issuer.0.clone(), x.cid.0.clone())).collect();
+                    let mut issuers: Vec<String> = vec!["did:web:mallory".into()];
+                    let mut methods: Vec<String> = vec!["did:web:mallory/creddef".into()];
+                    for (i, m) in &others {
+                        if *i != def.issuer.0 && !issuers.contains(i) {
+                            issuers.push(i.clone());
+                        }
+                        if !methods.contains(m) {
+                            methods.push(m.clone());
+                        }
+                    }
+                    for (n, i) in issuers.iter().enumerate() {
+                        if n > 1 && !thorough {
+                            break;
+                        }
+                        let mut p = b.pres.clone();
+                        p.verifiable_credential[ci].issuer = anoncreds::data_types::issuer_id::IssuerId::new_unchecked(i.as_str());
+                        emit_w3c(eng, out, &mut cases, "c03.w3c", "c03:random-shape:issuer-changed", "", Some(false), &p, &b.ghosts, &b.agg, true, &b.req, &ov, "safety");
+                    }
+                    for (n, m) in methods.iter().enumerate() {
+                        if n > 1 && !thorough {
+                            break;
+                        }
+                        let mut p = b.pres.clone();
+                        set_w3c_proof(&mut p.verifiable_credential[ci], &pv, Some(m.clone()), None);
+                        emit_w3c(eng, out, &mut cases, "c03.w3c", "c03:random-shape:method-changed", "", Some(false), &p, &b.ghosts, &b.agg, true, &b.req, &ov, "safety");
                     }
                     // alter an existing string / number entry
                     if let Some((k0, v0)) = subj.iter().find(|(_, v)| !matches!(v, V::Bool(_))) {
@@ -699,6 +844,51 @@ pub fn c05(eng: &mut Engine, rng: &mut Rng, thorough: bool, out: &mut Out) -> Ca
                 emit_legacy(eng, out, &mut cases, "c05.legacy", "c05:perturbed:c_list", "", Some(false), &p, &b.ghosts, &agg, &b.req, &o, "safety");
             }
         }
+        // nonce and aggregated proof on other shapes: no credential at all (self-attested only), one credential, boundary shapes
+        {
+            let sa = |r: &str, n: &str| RefPlan { referent: r.into(), kind: Kind::SelfAttested(n.into()), cred: None, revealed: true, restrictions: None, non_revoked: None };
+            let mut shapes: Vec<(&str, Plan)> = vec![
+                ("self-attested-only", Plan { creds: vec![], refs: vec![sa("s0", "nickname"), sa("s1", "motto")], global_nr: None, nonce: format!("{}", 1000 + rng.below(1_000_000_000)), holder: 0 }),
+                ("one-credential", basic_plan(rng, eng, "a_alice", round % 2 == 0)),
+            ];
+            let mut ex = extreme_plans(rng, &eng.cast);
+            let i = rng.below(ex.len() as u64) as usize;
+            shapes.push(("boundary-shape", ex.swap_remove(i)));
+            for (shape, pl) in shapes {
+                let Ok(bs) = eng.build_legacy(&pl) else { out.count(&format!("c05:{shape}:prover-refused")); continue };
+                emit_legacy(eng, out, &mut cases, "c05.legacy", &format!("c05:{shape}:honest"), "", Some(true), &bs.pres, &bs.ghosts, &bs.agg, &bs.req, &o, "safety");
+                let rj = pl.request_json();
+                for (cls, nonce) in [("nonce+1", format!("{}", pl.nonce.parse::<u64>().unwrap() + 1)), ("nonce-other", "424242".to_string())] {
+                    let mut r = rj.clone();
+                    r["nonce"] = json!(nonce);
+                    if let Some(req) = req_from(&r) {
+                        emit_legacy(eng, out, &mut cases, "c05.legacy", &format!("c05:{shape}:{cls}"), "", Some(false), &bs.pres, &bs.ghosts, &bs.agg, &req, &o, "safety");
+                    }
+                }
+                let mut p = bs.pres.clone();
+                let old = p["proof"]["aggregated_proof"]["c_hash"].as_str().unwrap_or("0").to_string();
+                p["proof"]["aggregated_proof"]["c_hash"] = json!(perturb_decimal(&old));
+                let mut agg = bs.agg.clone();
+                agg["intact"] = json!(false);
+                emit_legacy(eng, out, &mut cases, "c05.legacy", &format!("c05:{shape}:perturbed:c_hash"), "", Some(false), &p, &bs.ghosts, &agg, &bs.req, &o, "safety");
+                // an aggregated proof taken from another presentation of the same shape (other nonce)
+                let mut pl2 = pl.clone();
+                pl2.nonce = format!("{}", 1000 + rng.below(1_000_000_000));
+                if let Ok(b2) = eng.build_legacy(&pl2) {
+                    let mut p = bs.pres.clone();
+                    p["proof"]["aggregated_proof"] = b2.pres["proof"]["aggregated_proof"].clone();
+                    emit_legacy(eng, out, &mut cases, "c05.legacy", &format!("c05:{shape}:aggregate-of-other-session"), "", Some(false), &p, &bs.ghosts, &b2.agg, &bs.req, &o, "safety");
+                    // the whole other presentation against this request (replay under a fresh nonce)
+                    emit_legacy(eng, out, &mut cases, "c05.legacy", &format!("c05:{shape}:replayed-under-fresh-nonce"), "", Some(false), &b2.pres, &b2.ghosts, &b2.agg, &bs.req, &o, "safety");
+                }
+                if let Ok(bw) = eng.build_w3c(&pl) {
+                    emit_w3c(eng, out, &mut cases, "c05.w3c", &format!("c05:{shape}:honest"), "", Some(true), &bw.pres, &bw.ghosts, &bw.agg, true, &bw.req, &o, "safety");
+                    let mut r = rj.clone();
+                    r["nonce"] = json!("424242");
+                    emit_w3c(eng, out, &mut cases, "c05.w3c", &format!("c05:{shape}:nonce-other"), "", Some(false), &bw.pres, &bw.ghosts, &bw.agg, true, &req_from(&r).unwrap(), &o, "safety");
+                }
+            }
+        }
         // another link secret for all credentials: the honest prover API with the wrong secret
         {
             let mut plan2 = plan.clone();
@@ -811,6 +1001,53 @@ pub fn c06(eng: &mut Engine, rng: &mut Rng, thorough: bool, out: &mut Out) -> Ca
                 let mut p = b.pres.clone();
                 p["requested_proof"]["unrevealed_attrs"]["a2"] = json!({"sub_proof_index": 0});
                 emit_legacy(eng, out, &mut cases, "c06.legacy", "c06:2cred:duplicate-referent", "", Some(false), &p, &b.ghosts, &b.agg, &req, &o, "safety");
+            }
+        }
+        // sibling credentials: two credentials of ONE definition (same schema, definition, issuer: nothing but the sub-proof tells
+        // them apart). A value restriction on a referent served by one of them must not be met by what the other one reveals.
+        if round < 2 || thorough {
+            for (ca, cb) in [("a_alice", "a2_alice"), ("a2_alice", "a_alice"), ("a_alice", "b_alice")] {
+                let ha = eng.cast.cred(ca);
+                let hb = eng.cast.cred(cb);
+                let va = eng.cast.creds[ha].values.clone();
+                let vb = eng.cast.creds[hb].values.clone();
+                let (pn, pv) = vb.iter().find(|(_, v)| v.parse::<i32>().is_ok()).map(|(k, v)| (k.clone(), v.parse::<i32>().unwrap())).unwrap();
+                let mk = |referent: &str, kind: Kind, cred: usize, revealed: bool| RefPlan { referent: referent.into(), kind, cred: Some(cred), revealed, restrictions: None, non_revoked: None };
+                let plan = Plan {
+                    creds: vec![CredUse { held: ha, state_list: None, ts_only: None }, CredUse { held: hb, state_list: None, ts_only: None }],
+                    refs: vec![
+                        mk("own", Kind::Single(va[0].0.clone()), 0, true),
+                        mk("sib_pred", Kind::Pred(pn.clone(), "GE", pv - 1), 1, false),
+                        mk("sib_unrev", Kind::Single(vb[3].0.clone()), 1, false),
+                        mk("sib_group", Kind::Group(vec![vb[2].0.clone(), vb[3].0.clone()]), 1, true),
+                    ],
+                    global_nr: None,
+                    nonce: format!("{}", 1000 + rng.below(1_000_000_000)),
+                    holder: 0,
+                };
+                let r0 = plan.request_json();
+                let bl = eng.build_legacy(&plan).ok();
+                let bw = eng.build_w3c(&plan).ok();
+                let same_def = eng.cast.creds[ha].def == eng.cast.creds[hb].def;
+                // the value credential 0 reveals under `own`; credential 1 holds another value for that attribute and does not reveal it
+                let q = json!({ format!("attr::{}::value", va[0].0): va[0].1 });
+                for (referent, section) in [("own", "requested_attributes"), ("sib_pred", "requested_predicates"), ("sib_unrev", "requested_attributes"), ("sib_group", "requested_attributes")] {
+                    let mut r = r0.clone();
+                    r[section][referent]["restrictions"] = q.clone();
+                    let Some(req) = req_from(&r) else { continue };
+                    let expect = referent == "own";
+                    let cls = format!("c06:sibling:{}:{}:{}", if same_def { "same-definition" } else { "other-definition" }, referent, expect);
+                    if let Some(b) = &bl {
+                        emit_legacy(eng, out, &mut cases, "c06.legacy", &cls, "", Some(expect), &b.pres, &b.ghosts, &b.agg, &req, &o, "safety");
+                    }
+                    if let Some(b) = &bw {
+                        // a W3C presentation carries no referent-to-credential mapping: an attribute referent may be answered as
+                        // "held, unrevealed" by the sibling that does meet the restriction (judged by the model); a predicate needs
+                        // the predicate proof, which only the mapped credential has
+                        let exp = if expect { Some(true) } else if referent == "sib_pred" { Some(false) } else { None };
+                        emit_w3c(eng, out, &mut cases, "c06.w3c", &cls, "", exp, &b.pres, &b.ghosts, &b.agg, true, &req, &o, "safety");
+                    }
+                }
             }
         }
         // a restricted referent cannot be met by self-attestation
